@@ -108,7 +108,14 @@ func (d *DB) Prefix(i int) *DB {
 	return n
 }
 
+// Yield, when set, is called before every read and write reaches the store (outside the store's lock): an
+// interleaving explorer makes each database access a scheduling point with it.
+var Yield func(op string)
+
 func (d *DB) apply(e Entry) {
+	if y := Yield; y != nil {
+		y("db-write")
+	}
 	d.mu.Lock()
 	for _, op := range e.Ops {
 		if op.Del {
@@ -127,6 +134,9 @@ func (d *DB) apply(e Entry) {
 }
 
 func (d *DB) Get(key []byte) []byte {
+	if y := Yield; y != nil {
+		y("db-read")
+	}
 	d.mu.Lock()
 	defer d.mu.Unlock()
 	v, ok := d.m[string(key)]
@@ -215,6 +225,9 @@ type iter struct {
 }
 
 func (d *DB) snapshot(prefix []byte) *iter {
+	if y := Yield; y != nil {
+		y("db-iterate")
+	}
 	d.mu.Lock()
 	defer d.mu.Unlock()
 	it := &iter{pos: -1}
